@@ -1,4 +1,299 @@
-/- C11 — property theorems (stub; filled in by the owning work package). -/
-import Rdm.Basic
+/-
+  C11 — the majority heuristic is a sequential pairwise tournament.
+  Property theorems only (helper lemmas: Rdm/Lemmas/HeurMajority.lean, HeurLinks.lean, HeurList.lean).
+  Structural theorems are generic in the number type (they hold for the Float model the driver runs
+  against the implementation and for the Rat model) and for every length of the search order; the
+  statements about scores as weight sums are over `Rat`.
+
+  Model: Rdm/Model/Heuristics.lean (`shuffleLoop`, `searchOrder`, `compareLoop`, `takeBetter`, the four
+  resolvers, `majorityFold`, `majorityGroups`, `majorityTournament`) and Rdm/Model/Links.lean
+  (`majorityRanking` = prepareRanking); spec evaluated on the implementation's output: Rdm/Spec/C11.lean.
+-/
+import Rdm.Model.Heuristics
+import Rdm.Spec.C11
+import Rdm.Lemmas.NumRat
+import Rdm.Lemmas.HeurList
+import Rdm.Lemmas.HeurLinks
+import Rdm.Lemmas.HeurMajority
+import Mathlib.Tactic.Linarith
+import Mathlib.Tactic.NormNum
+set_option linter.unusedSectionVars false
+set_option linter.unusedSimpArgs false
 namespace Rdm.Props.C11
+open Rdm
+variable {α : Type} [Num α]
+
+/-- inversion of the tournament: the fold over the challengers, then `prepareRanking` on the groups -/
+theorem tournament_shape (pol : DrawPolicy) (wc : List (WCrit α)) (first : Alt α) (rest : List (Alt α))
+    (d : Draws α) (out : List (Linked (MajEval α)))
+    (h : majorityTournament pol wc first rest d = Except.ok out) :
+    ∃ st ev d', majorityFold pol wc rest ⟨[], [], first⟩ Num.zero d = Except.ok ((st, ev), d') ∧
+      out = majorityRanking (majorityGroups st ev) := by
+  unfold majorityTournament at h
+  obtain ⟨⟨⟨st, ev⟩, d'⟩, h1, h⟩ := R.bind_eq_ok h
+  simp at h
+  exact ⟨st, ev, d', h1, h.symm⟩
+
+theorem groups_flatten (st : MajState α) (ev : α) :
+    (majorityGroups st ev).flatten = st.entries ++ [(st.cur.id, ⟨ev, "", Num.zero⟩)] := by
+  simp [majorityGroups, MajState.entries]
+
+/-- **permutation**: the ranking contains every alternative of the search order exactly once -/
+theorem result_is_permutation_of_search_order (pol : DrawPolicy) (wc : List (WCrit α)) (first : Alt α)
+    (rest : List (Alt α)) (d : Draws α) (out : List (Linked (MajEval α)))
+    (h : majorityTournament pol wc first rest d = Except.ok out) :
+    (out.map (·.id)).Perm ((first :: rest).map (·.id)) := by
+  obtain ⟨st, ev, d', hf, rfl⟩ := tournament_shape pol wc first rest d out h
+  rw [majorityRanking_ids, groups_flatten]
+  have := majorityFold_ids hf
+  have e : (List.map (·.1) (st.entries ++ [(st.cur.id, (⟨ev, "", Num.zero⟩ : MajEval α))])) = st.ids := by
+    simp [MajState.ids, MajState.entries]
+  rw [e]
+  exact (List.reverse_perm _).trans (by simpa [MajState.ids] using this)
+
+/-- **winner first**: the undefeated alternative (the running winner after the last match) heads the
+    ranking and names no opponent -/
+theorem winner_is_first (pol : DrawPolicy) (wc : List (WCrit α)) (first : Alt α) (rest : List (Alt α))
+    (d : Draws α) (out : List (Linked (MajEval α)))
+    (h : majorityTournament pol wc first rest d = Except.ok out) :
+    ∃ st ev d', majorityFold pol wc rest ⟨[], [], first⟩ Num.zero d = Except.ok ((st, ev), d') ∧
+      ∃ w tail, out = w :: tail ∧ w.id = st.cur.id ∧ w.ev.cmp = "" ∧ st.cur ∈ first :: rest := by
+  obtain ⟨st, ev, d', hf, rfl⟩ := tournament_shape pol wc first rest d out h
+  refine ⟨st, ev, d', hf, ?_⟩
+  have hp := majorityRanking_payload (majorityGroups st ev)
+  rw [groups_flatten, List.reverse_append] at hp
+  simp only [List.reverse_cons, List.reverse_nil, List.nil_append, List.singleton_append] at hp
+  have hcur : st.cur ∈ first :: rest := majorityFold_cur_mem hf
+  cases hout : majorityRanking (majorityGroups st ev) with
+  | nil => rw [hout] at hp; simp at hp
+  | cons w tail =>
+    rw [hout] at hp
+    simp only [List.map_cons, List.cons.injEq, Prod.mk.injEq] at hp
+    refine ⟨w, tail, rfl, hp.1.1, ?_, hcur⟩
+    rw [hp.1.2]
+
+/-- **every other entry**: it names in `comparedWith` an alternative of the search order different
+    from itself — the opponent of the match in which it dropped out —, and its two reported numbers
+    are exactly the two scores `compare` gave for that pair (own score, opponent's score); it did not
+    score higher than that opponent (lower, or equal within eps) -/
+theorem loser_entry_semantics (pol : DrawPolicy) (wc : List (WCrit α)) (first : Alt α) (rest : List (Alt α))
+    (d : Draws α) (out : List (Linked (MajEval α))) (hnd : ((first :: rest).map (·.id)).Nodup)
+    (h : majorityTournament pol wc first rest d = Except.ok out)
+    (w : Linked (MajEval α)) (tail : List (Linked (MajEval α))) (ho : out = w :: tail)
+    (e : Linked (MajEval α)) (he : e ∈ tail) :
+    ∃ a ∈ first :: rest, ∃ b ∈ first :: rest, a.id = e.id ∧ b.id = e.ev.cmp ∧ e.ev.cmp ≠ e.id ∧
+      (compareAlts wc a b = Except.ok (e.ev.value, e.ev.cav) ∨
+       compareAlts wc b a = Except.ok (e.ev.cav, e.ev.value)) ∧
+      NotHigher e.ev.value e.ev.cav := by
+  obtain ⟨st, ev, d', hf, hout⟩ := tournament_shape pol wc first rest d out h
+  have hent := (majorityFold_entries (seen := [first]) hf (by simp) (by simp [MajState.entries])
+    (by simpa using hnd)).2
+  -- the tail of the ranking is the reverse of the written entries
+  have hp := majorityRanking_payload (majorityGroups st ev)
+  rw [groups_flatten, List.reverse_append, ← hout, ho] at hp
+  simp only [List.reverse_cons, List.reverse_nil, List.nil_append, List.singleton_append,
+    List.map_cons, List.cons.injEq] at hp
+  have hm : (e.id, e.ev) ∈ st.entries := by
+    have : (e.id, e.ev) ∈ tail.map (fun e => (e.id, e.ev)) := List.mem_map.mpr ⟨e, he, rfl⟩
+    rw [hp.2] at this
+    exact List.mem_reverse.mp this
+  obtain ⟨a, ha, b, hb, r⟩ := hent _ hm
+  exact ⟨a, by simpa using ha, b, by simpa using hb, r⟩
+
+/-- **ranked below the opponent, or in the same tie group**: in the drop-out groups handed to
+    `prepareRanking` (worst first; the ranking is their reversal, each entry linked to the group
+    dropped just before and to its peers) every entry other than the winner's names an opponent
+    that sits in the same group or in a group that dropped out later, i.e. is ranked higher -/
+theorem opponent_in_same_or_later_group (pol : DrawPolicy) (wc : List (WCrit α)) (first : Alt α)
+    (rest : List (Alt α)) (d d' : Draws α) (st : MajState α) (ev : α)
+    (h : majorityFold pol wc rest ⟨[], [], first⟩ Num.zero d = Except.ok ((st, ev), d'))
+    (k : Nat) (hk : k < (majorityGroups st ev).length) (p : MajRes α) (hp : p ∈ (majorityGroups st ev)[k]) :
+    p = (st.cur.id, ⟨ev, "", Num.zero⟩) ∨ p.2.cmp ∈ ((majorityGroups st ev)[k]).map (·.1) ∨
+      p.2.cmp ∈ (((majorityGroups st ev).drop (k + 1)).flatten).map (·.1) := by
+  obtain ⟨j1, j2⟩ := majorityFold_groupInv h (st := ⟨[], [], first⟩) ⟨by simp, by simp⟩
+  unfold majorityGroups at hk hp ⊢
+  by_cases hkw : k < st.worse.length
+  · rw [List.getElem_append_left hkw] at hp ⊢
+    rw [List.drop_append_of_le_length (by omega)]
+    simp only [List.flatten_append, List.flatten_cons, List.flatten_nil, List.append_nil, List.map_append,
+      List.map_cons, List.map_nil, List.mem_append, List.mem_singleton]
+    rcases j2 k hkw p hp with h | h | h | h
+    · exact Or.inr (Or.inl h)
+    · exact Or.inr (Or.inr (Or.inl h))
+    · exact Or.inr (Or.inr (Or.inr (Or.inl h)))
+    · exact Or.inr (Or.inr (Or.inr (Or.inr h)))
+  · have hk' : k = st.worse.length := by simp at hk; omega
+    subst hk'
+    simp only [List.getElem_append_right (Nat.le_refl _), Nat.sub_self, List.getElem_cons_zero,
+      List.mem_append, List.mem_singleton] at hp ⊢
+    rcases hp with hp | rfl
+    · right; left
+      simp only [List.map_append, List.map_cons, List.map_nil, List.mem_append, List.mem_singleton]
+      right; exact j1 p hp
+    · left; rfl
+
+/-- tie groups arise only when draws are allowed: under `current`, `newer` and `random` every
+    drop-out group is a single alternative (so every loser is ranked strictly below its opponent) -/
+theorem no_tie_groups_unless_draws_allowed (pol : DrawPolicy) (hpol : pol ≠ .allow) (wc : List (WCrit α))
+    (first : Alt α) (rest : List (Alt α)) (d d' : Draws α) (st : MajState α) (ev : α)
+    (h : majorityFold pol wc rest ⟨[], [], first⟩ Num.zero d = Except.ok ((st, ev), d')) :
+    ∀ g ∈ majorityGroups st ev, g.length = 1 := by
+  obtain ⟨i1, i2⟩ := majorityFold_singletons hpol h (st := ⟨[], [], first⟩) ⟨rfl, by simp⟩
+  intro g hg
+  simp only [majorityGroups, List.mem_append, List.mem_singleton] at hg
+  rcases hg with hg | rfl
+  · exact i2 g hg
+  · simp [i1]
+
+/-- over the rationals "did not score higher" reads: value ≤ opponent's value, or within eps of it -/
+theorem notHigher_rat (v cav : Rat) (h : NotHigher v cav) :
+    v ≤ cav ∨ (if v - cav < 0 then -(v - cav) else v - cav) ≤ Num.ofConst Facts.majorityEps := by
+  rcases h with h | h | h | h
+  · right; simpa [floatsAreEqual_rat, majorityEpsOf] using h
+  · right
+    have : (if cav - v < 0 then -(cav - v) else cav - v) ≤ (Num.ofConst Facts.majorityEps : Rat) := by
+      simpa [floatsAreEqual_rat, majorityEpsOf] using h
+    split at this <;> split <;> linarith
+  · left; exact le_of_lt h
+  · left; exact not_lt.mp h
+
+/-- **links well-formed**: every id in a `betterThanOrSameAs` list is an alternative of the ranking -/
+theorem links_name_ranked_alternatives (pol : DrawPolicy) (wc : List (WCrit α)) (first : Alt α)
+    (rest : List (Alt α)) (d : Draws α) (out : List (Linked (MajEval α)))
+    (h : majorityTournament pol wc first rest d = Except.ok out) (e : Linked (MajEval α)) (he : e ∈ out) :
+    ∀ x ∈ e.links, x ∈ out.map (·.id) := by
+  obtain ⟨st, ev, d', hf, rfl⟩ := tournament_shape pol wc first rest d out h
+  intro x hx
+  have he' : e ∈ majorityEntries [] (majorityGroups st ev) := by
+    unfold majorityRanking at he; exact List.mem_reverse.mp he
+  rcases majorityEntries_links [] _ e he' x hx with h1 | h1
+  · simp at h1
+  · rw [majorityRanking_ids]; exact List.mem_reverse.mpr h1
+
+/-! ### scores -/
+
+/-- **scores are the weight sums of strictly-better criteria** (|Δ| > eps on the signed values): the
+    two numbers `compare` returns are the total weight of the criteria on which the first alternative
+    beats the second by more than eps, and vice versa -/
+theorem scores_are_weight_sums (wc : List (WCrit Rat)) (a1 a2 : Alt Rat) (s1 s2 : Rat)
+    (h : compareAlts wc a1 a2 = Except.ok (s1, s2)) :
+    s1 = scoreOf (Num.ofConst Facts.majorityEps) a1 a2 wc ∧ s2 = scoreOf (Num.ofConst Facts.majorityEps) a2 a1 wc := by
+  have := compareLoop_scores (Num.ofConst Facts.majorityEps) (by simp [Facts.majorityEps]) a1 a2 wc 0 0 s1 s2 h
+  simpa using this
+
+/-- the tolerance of the code is the 1e-6 of the property (as the nearest double) -/
+theorem eps_is_1e6 : |(Num.ofConst Facts.majorityEps : Rat) - 1 / 1000000| < 1 / 10 ^ 20 := by
+  simp only [Num.ofConst_rat, Facts.majorityEps]
+  norm_num [abs_lt]
+
+/-! ### draw policies -/
+
+/-- the registry of main.go: `allow` is the default, the four names resolve, anything else panics -/
+theorem policy_lookup :
+    findPolicy "" = Except.ok .allow ∧ findPolicy "allow" = Except.ok .allow ∧
+    findPolicy "current" = Except.ok .current ∧ findPolicy "newer" = Except.ok .newer ∧
+    findPolicy "random" = Except.ok .random := by decide
+
+theorem unknown_policy_rejected (name : String) (h0 : name ≠ "")
+    (h : name ∉ ["allow", "current", "newer", "random"]) : ∃ e, findPolicy name = Except.error e := by
+  have hr : registeredPolicies = [.allow, .current, .newer, .random] := by decide
+  simp only [List.mem_cons, List.not_mem_nil, or_false, not_or] at h
+  obtain ⟨h1, h2, h3, h4⟩ := h
+  unfold findPolicy
+  have hb : (name == "") = false := by simpa using h0
+  simp only [hb, hr]
+  have n1 : (DrawPolicy.allow.name == name) = false := by
+    simp [DrawPolicy.name, Facts.drawAllow]; exact fun e => h1 e.symm
+  have n2 : (DrawPolicy.current.name == name) = false := by
+    simp [DrawPolicy.name, Facts.drawCurrent]; exact fun e => h2 e.symm
+  have n3 : (DrawPolicy.newer.name == name) = false := by
+    simp [DrawPolicy.name, Facts.drawNewer]; exact fun e => h3 e.symm
+  have n4 : (DrawPolicy.random.name == name) = false := by
+    simp [DrawPolicy.name, Facts.drawRandom]; exact fun e => h4 e.symm
+  simp [List.find?, n1, n2, n3, n4]
+
+/-- unequal scores decide regardless of the policy and without consuming a draw: the higher score
+    stays / becomes the running winner, the loser drops out as (or with) its group -/
+theorem decisive_match (pol : DrawPolicy) (s1 s2 : α) (st : MajState α) (a : Alt α) (d : Draws α)
+    (hne : floatsAreEqual s1 s2 majorityEpsOf = false) :
+    takeBetter pol s1 s2 st a d =
+      if s2 < s1 then Except.ok ((resolveCurrent s1 s2 st a, s1), d)
+      else Except.ok ((resolveNewer s1 s2 st a, s2), d) := by
+  unfold takeBetter; simp [hne]
+
+/-- `allow`: on equal scores the challenger is parked in the tie buffer of the running winner, which
+    stays; its entry names the winner and reports (own score, winner's score) -/
+theorem draw_allow (s1 s2 : α) (st : MajState α) (a : Alt α) (d : Draws α)
+    (heq : floatsAreEqual s1 s2 majorityEpsOf = true) :
+    takeBetter .allow s1 s2 st a d =
+      Except.ok (({ st with same := st.same ++ [(a.id, ⟨s2, st.cur.id, s1⟩)] }, s1), d) := by
+  unfold takeBetter; simp [heq, resolveDraw, resolveAllow]
+
+/-- `current`: on equal scores the running winner stays, the challenger drops out alone -/
+theorem draw_current (s1 s2 : α) (st : MajState α) (a : Alt α) (d : Draws α)
+    (heq : floatsAreEqual s1 s2 majorityEpsOf = true) :
+    takeBetter .current s1 s2 st a d =
+      Except.ok (({ st with worse := st.worse ++ [[(a.id, ⟨s2, st.cur.id, s1⟩)]] }, s1), d) := by
+  unfold takeBetter; simp [heq, resolveDraw, resolveCurrent]
+
+/-- `newer`: on equal scores the challenger takes over; the old winner drops out together with its
+    tie buffer, naming the challenger -/
+theorem draw_newer (s1 s2 : α) (st : MajState α) (a : Alt α) (d : Draws α)
+    (heq : floatsAreEqual s1 s2 majorityEpsOf = true) :
+    takeBetter .newer s1 s2 st a d =
+      Except.ok ((⟨[], st.worse ++ [st.same ++ [(st.cur.id, ⟨s1, a.id, s2⟩)]], a⟩, s1), d) := by
+  unfold takeBetter; simp [heq, resolveDraw, resolveNewer]
+
+/-- `random`: one draw is consumed; the running winner stays iff the draw is below the constant of
+    the code, otherwise the challenger takes over -/
+theorem draw_random (s1 s2 : α) (st : MajState α) (a : Alt α) (u : α) (d : Draws α)
+    (heq : floatsAreEqual s1 s2 majorityEpsOf = true) :
+    takeBetter .random s1 s2 st a (u :: d) =
+      if u < Num.ofConst Facts.randomWinnerHalf then takeBetter .current s1 s2 st a d
+      else takeBetter .newer s1 s2 st a d := by
+  unfold takeBetter; simp [heq, resolveDraw, draw]; split <;> rfl
+
+/-- … and that constant is one half -/
+theorem random_threshold_is_half : (Num.ofConst Facts.randomWinnerHalf : Rat) = 1 / 2 := by
+  simp only [Num.ofConst_rat, Facts.randomWinnerHalf]; norm_num
+
+/-! ### search order -/
+
+/-- with a current choice: it is the first running winner, looked up among all known alternatives;
+    the challengers are the other considered alternatives (shuffled or in the given order) -/
+theorem search_order_current_first (d : DMP α) (cur : String) (rnd : Bool) (ds ds' : Draws α)
+    (first : Alt α) (rest : List (Alt α)) (hc : cur ≠ "")
+    (h : searchOrder d cur rnd ds = Except.ok ((first, rest), ds')) :
+    first.id = cur ∧ first ∈ d.all ∧ rest.Perm (removeAlt d.co cur) :=
+  searchOrder_with_current d cur rnd ds ds' first rest hc h
+
+/-- the seeded shuffle returns a permutation and consumes one draw per position but the first -/
+theorem shuffle_is_permutation {β : Type} (l : List β) (ds : Draws α) (l' : List β) (ds' : Draws α)
+    (h : shuffleAlts l ds = Except.ok (l', ds')) : l'.Perm l ∧ ds' = ds.drop (l.length - 1) :=
+  ⟨shuffleLoop_perm _ _ _ _ _ h, shuffleLoop_draws _ _ _ _ _ h⟩
+
+/-
+  Not proved (checked on every run by `Spec.C11.check` on the implementation's output and by the
+  bit-exact correspondence of `majority-evaluate`):
+
+  theorem model_output_passes_spec_partial (Rat) :
+      majorityTournament pol wc first rest d = .ok out → ids Nodup → well-conditioned margins →
+      Spec.C11.check wc (first :: rest) pol.name out = true
+  The clauses of the checker are proved above on the model one by one: permutation of the search
+  order, winner first without opponent, every loser's report faithful (`loser_entry_semantics`,
+  `scores_are_weight_sums`), opponent in the same or a later group, singleton groups unless draws are
+  allowed, links inside the ranking, policy semantics.  Missing: the exact link lists (previous group ++
+  peers — a statement about `majorityRanking` of Model/Links.lean, shared with C01) and the mechanical
+  translation into the checker's replay formulation.
+-/
+
+/-! ### satisfiable hypotheses -/
+
+example : majorityTournament (α := Rat) .allow [] ⟨"a", []⟩ [] [] =
+    Except.ok [⟨"a", ⟨0, "", 0⟩, []⟩] := rfl
+
+/-- the constants and names this property depends on were re-read from the working tree on this run
+    (none fell back to its pinned value because its declaration could not be located) -/
+theorem facts_fresh : (Rdm.Facts.staleFacts.all fun n => !["majorityEps", "randomWinnerHalf", "drawAllow", "drawCurrent", "drawNewer", "drawRandom", "wiringDrawResolvers", "methodMajority"].contains n) = true := by decide
+
 end Rdm.Props.C11
